@@ -409,3 +409,6 @@ async fn get_storage_instance(
 
     Ok(storage)
 }
+
+#[cfg(feature = "verif")]
+pub(crate) use json::{load as verif_json_load, synchronous as verif_json_synchronous};
